@@ -297,6 +297,22 @@ def c02_e(ctx: Ctx):
                 if isinstance(a, ast.Assign) and isinstance(a.value, ast.Name) and any(isinstance(t, ast.Name) and t.id in names for t in a.targets):
                     names.add(a.value.id)
             established = any(t.replace(" ", "") == f"self._contains_job_id({nm})" and p for (t, p) in facts for nm in names)
+            from_listing = False
+            for i in path:
+                a = cfg.nodes[i].ast
+                if isinstance(a, ast.Assign) and any(isinstance(t, ast.Name) and t.id in names for t in a.targets) and isinstance(a.value, ast.Subscript):
+                    from_listing = True
+                if isinstance(a, ast.Assign) and any(_single_unpack(t, nm) for t in a.targets for nm in names) and isinstance(a.value, ast.Name):
+                    from_listing = True
+            if established and not from_listing:
+                # the directory test only means "this job exists" for a full-length id: a shorter string ('', '.', '..', 'notes') may name something else below the workspace
+                full = any((t.replace(" ", "") in (f"len({nm})<JOB_ID_LENGTH",) and not p) or (t.replace(" ", "") in (f"len({nm})>=JOB_ID_LENGTH", f"len({nm})==JOB_ID_LENGTH") and p)
+                           for (t, p) in facts for nm in names)
+                if not full:
+                    short = path
+                    out.append(ctx.viol(R, fi, n.ast, "open_job(id=...) accepts an id that is shorter than a full id because something of that name exists below the workspace (the existence "
+                                        "test is reached by an abbreviation that matched no job): '', '.', '..' or a stray entry such as workspace/notes yield a Job handle whose path is "
+                                        "that location instead of KeyError", witness=cfg.describe_path(short), construct=OPEN + "|exists-only-for-full-ids"))
             if not established:
                 for i in path:
                     a = cfg.nodes[i].ast
